@@ -183,18 +183,25 @@ def symKey (v : Val) : String := match v with
   | .str s => Str.toString s
   | .int i => toString i
 
+/-- the symbol an operation declares, as far as `check_symbol_redeclaration` is concerned: CONSTANT / LABEL / DLABEL
+    with a first operand that is a `str` (anything else is left to the operation's own type check) -/
+def declKey (op : SOp) : Option Val :=
+  if isSymbolDecl op.cls then
+    match op.args with
+    | (.str s) :: _ => some (.str s)
+    | _ => none
+  else none
+
 /-- `check_symbol_redeclaration` -/
 def checkSymbolRedeclaration (prog : List SOp) : Msgs :=
   let rec go : List SOp → List Val → Msgs → Msgs
     | [], _, m => m
     | op :: rest, seen, m =>
-      if isSymbolDecl op.cls then
-        match op.args with
-        | k :: _ =>
-          if seen.contains k then go rest seen (m.err s!"symbol `{symKey k}` has already been defined" op.loc)
-          else go rest (k :: seen) m
-        | [] => go rest seen m
-      else go rest seen m
+      match declKey op with
+      | some k =>
+        if seen.contains k then go rest seen (m.err s!"symbol `{symKey k}` has already been defined" op.loc)
+        else go rest (k :: seen) m
+      | none => go rest seen m
   go prog [] {}
 
 /-- `operation_length` (hand model; corresponded exhaustively over class x token-kind tuples) -/
